@@ -3,7 +3,8 @@ running): runs harness/cmd/agentrun (the real agent.New(...).Run in process, scr
 history store) and compares every observation with `run` of coq/Agent/Run.v through coq/Agent/Check.v.
 
     import props.agent_lib as agent_lib            (or: from props import agent_lib)
-    cases = agent_lib.run_cases(ctx, ["refused"])   # None = all classes; returns the parsed JSONL (list of dict) or None
+    cases = agent_lib.run_cases(ctx, ["refused"])   # None = all default classes; returns the parsed JSONL (list of dict) or None
+    cases = agent_lib.run_cases(ctx, ["retry"])     # C10: failed / stopped run retried with a new request id; monitor_retry(c)
     agent_lib.check_model(ctx, cases)               # ctx.fail("correspondence", ...) for every disagreement with the model
     for c in cases: why = agent_lib.monitor(c)      # class monitors (the property clause on what the agent did)
 
@@ -96,6 +97,48 @@ def monitor(c):
         if f.get("err_kind") != "none" or f.get("exec") != want or len(f.get("hist_files", [])) != 1:
             return "the first run was disturbed: error %r, executed %s (expected %s), history %s" % (
                 f.get("err"), f.get("exec"), want, f.get("hist_files"))
+    return None
+
+
+def monitor_retry(c):
+    """C10 clause "a retry is recorded as a new run" (class `retry` of agentrun: run_cases(ctx, ["retry"])), on what the real agents and
+    the real history store did; None or a description of the failure.  c["retry_obs"]: first_reqid, retry_reqid, hist_before / hist_after
+    (relative file name -> sha256), first_record (the RetryTarget as read back by FindByRequestID: reqid, status, params, nodes [{name,
+    status}], handlers), first_record_after, retry_record, yaml_changed / extra_step (the definition on disk got an extra step before
+    the retry).  c["exec"] / c["log"] are the retry's executor events, c["first"] the first run's observation."""
+    if c.get("class") != "retry":
+        return None
+    if c.get("hung"):
+        return "the retry did not return within the watchdog time; until then it did: %s" % c["log"][:12]
+    r = c["retry_obs"]
+    before, after = r["hist_before"], r["hist_after"]
+    fr, rr = r["first_record"], r["retry_record"]
+    for name, h in before.items():
+        if after.get(name) != h:
+            return ("the retry changed the record of the first run: history file %s %s" %
+                    (name, "is gone" if name not in after else "has different content"))
+    new = sorted(set(after) - set(before))
+    if len(new) != 1:
+        return "the retry did not record exactly one new run: new history files %s" % new
+    if r["first_record_after"] != fr:
+        return "the first run's record reads back differently after the retry: %s -> %s" % (fr, r["first_record_after"])
+    if not rr["found"] or rr["reqid"] != r["retry_reqid"] or rr["reqid"] == r["first_reqid"]:
+        return "the new record does not carry the retry's own request id: %s (retry %s, first %s)" % (rr.get("reqid"), r["retry_reqid"], r["first_reqid"])
+    if rr["file"] != new[0]:
+        return "the retry's record is not the new file: %s vs %s" % (rr["file"], new[0])
+    if rr["params"] != fr["params"]:
+        return "the retry's record has other parameters: %r vs %r" % (rr["params"], fr["params"])
+    done = {n["name"] for n in fr["nodes"] if n["status"] == "finished"}
+    rec_steps = {n["name"] for n in fr["nodes"]}
+    ran = [x for x in c["exec"] if not x.startswith("on")]
+    again = sorted(done & set(ran))
+    if again:
+        return "steps recorded finished in the first run were executed again by the retry: %s" % again
+    foreign = sorted(set(ran) - rec_steps)
+    if foreign:
+        return "the retry executed steps that are not in the recorded run (it must use the steps of the record): %s" % foreign
+    if [n["name"] for n in rr["nodes"]] != [n["name"] for n in fr["nodes"]]:
+        return "the retry's record lists other steps than the recorded run: %s vs %s" % ([n["name"] for n in rr["nodes"]], [n["name"] for n in fr["nodes"]])
     return None
 
 
